@@ -14,7 +14,17 @@ impl Trace {
     pub fn create(path: &str) -> Self {
         Trace { out: BufWriter::new(File::create(path).expect("create trace")), n_events: 0 }
     }
-    pub fn ev(&mut self, v: Value) {
+    pub fn ev(&mut self, mut v: Value) {
+        // the TLA+ Json module has no null: write -1 instead
+        fn denull(v: &mut Value) {
+            match v {
+                Value::Null => *v = Value::from(-1),
+                Value::Array(a) => a.iter_mut().for_each(denull),
+                Value::Object(m) => m.values_mut().for_each(denull),
+                _ => {}
+            }
+        }
+        denull(&mut v);
         serde_json::to_writer(&mut self.out, &v).unwrap();
         self.out.write_all(b"\n").unwrap();
         self.n_events += 1;
